@@ -496,7 +496,11 @@ func (p *Path) formatObs(v Value) string {
 		}
 		if b, ok := a.T.Underlying().(*types.Basic); ok {
 			if _, signed, ok2 := basicSort(b); ok2 {
-				if t, ok3 := a.V.(*Term); ok3 && t.c && t.S.K == KBV {
+				if t, ok3 := a.V.(*Term); ok3 && t.S.K == KBV {
+					if !t.c {
+						p.obsTerms = append(p.obsTerms, obsTerm{t, signed})
+						return fmt.Sprintf("\x00%d\x00", len(p.obsTerms)-1)
+					}
 					if signed {
 						return fmt.Sprint(sext64(t.u, t.S.W))
 					}
@@ -507,7 +511,8 @@ func (p *Path) formatObs(v Value) string {
 		return p.formatObs(a.V)
 	case *Term:
 		if !a.c {
-			return "<symbolic>"
+			p.obsTerms = append(p.obsTerms, obsTerm{a, false})
+			return fmt.Sprintf("\x00%d\x00", len(p.obsTerms)-1)
 		}
 		switch a.S.K {
 		case KBool:
@@ -526,11 +531,12 @@ func (p *Path) formatObs(v Value) string {
 		if a.T.c {
 			return a.T.b.String()
 		}
-		return "<symbolic>"
+		p.obsTerms = append(p.obsTerms, obsTerm{a.T, false})
+		return fmt.Sprintf("\x00%d\x00", len(p.obsTerms)-1)
 	case StrV:
 		s, ok := a.Concrete()
 		if !ok {
-			return "<symbolic>"
+			return fmt.Sprintf("<symbolic string of length %d>", len(a.B))
 		}
 		return strconv.Quote(s)
 	case SliceV:
@@ -570,4 +576,49 @@ func isBigPtr(t types.Type) bool {
 		return isBigInt(pt.Elem())
 	}
 	return false
+}
+
+type obsTerm struct {
+	t      *Term
+	signed bool
+}
+
+// resolveObs substitutes model values for the symbolic leaves of the observations.
+func (p *Path) resolveObs() map[string]string {
+	res := map[string]string{}
+	if len(p.obs) == 0 {
+		return res
+	}
+	vals := make([]string, len(p.obsTerms))
+	if p.S != nil && len(p.obsTerms) > 0 {
+		var qs []string
+		for _, ot := range p.obsTerms {
+			qs = append(qs, ot.t.s)
+		}
+		got := p.S.GetValues(qs)
+		for i, ot := range p.obsTerms {
+			mv := parseModelValue(got[ot.t.s], ot.t.S)
+			switch ot.t.S.K {
+			case KBV:
+				if ot.signed {
+					u, _ := strconv.ParseUint(mv, 10, 64)
+					mv = fmt.Sprint(sext64(u, ot.t.S.W))
+				}
+			case KFP:
+				if ot.t.S.W == 32 {
+					mv = "f32:" + mv
+				} else {
+					mv = "f64:" + mv
+				}
+			}
+			vals[i] = mv
+		}
+	}
+	for k, v := range p.obs {
+		for i := range vals {
+			v = strings.ReplaceAll(v, fmt.Sprintf("\x00%d\x00", i), vals[i])
+		}
+		res[k] = v
+	}
+	return res
 }
